@@ -88,7 +88,7 @@ pub fn run_random(tr: &mut Trace, run: u64, seed: u64, prof: Profile) -> RunStat
     let alloc_choices = [3000usize, 6000, 20000, 100000, 1000000];
     let rx_alloc = [*r.pick(&alloc_choices), *r.pick(&alloc_choices)];
     let bw_choices: &[u32] = match prof {
-        Profile::Rate => &[1472, 3000, 20000, 100000, 1000000, 2000000],
+        Profile::Rate => &[1472, 1600, 2500, 3000, 3600, 20500, 100000, 1000000, 2000000],
         _ => &[20000, 100000, 1000000, 2000000, 10000000],
     };
     let bw = [*r.pick(bw_choices), *r.pick(bw_choices)];
@@ -108,7 +108,7 @@ pub fn run_random(tr: &mut Trace, run: u64, seed: u64, prof: Profile) -> RunStat
         Profile::Mixed => (*r.pick(&[0u64, 5, 20, 40]), *r.pick(&[0u64, 5, 20]), *r.pick(&[0u64, 0, 5]), *r.pick(&[0u64, 10, 100])),
     };
     let latency = *r.pick(&[0u64, 1, 10, 40, 150, 500]);
-    let cadence = *r.pick(&[1u64, 5, 20, 20, 50, 200]);
+    let cadence = if prof == Profile::Rate { *r.pick(&[1u64, 1, 1, 2, 5, 20, 50, 200]) } else { *r.pick(&[1u64, 5, 20, 20, 50, 200]) };
     let rounds = match prof {
         Profile::Rate => r.range(100, 600),
         Profile::Blackout => r.range(50, 400),
